@@ -538,6 +538,7 @@ template <typename C> struct recording_mpi_cb
     }
 };
 
+static int cout_quirk = 0;
 template <typename K, typename T>
 static void c20_run(rng& g, int shp, int variant, int world, double target, bool sparse = false, bool badfile = false)
 {
@@ -557,6 +558,11 @@ static void c20_run(rng& g, int shp, int variant, int world, double target, bool
         long long final_text = 0;
         capture.reset();
         std::streambuf* old = std::cout.rdbuf(&capture);
+        // the caller's std::cout: exceptions enabled (the stream is healthy, nothing is thrown) / a number format of the caller's own
+        std::ios saved_format(nullptr);
+        saved_format.copyfmt(std::cout);
+        if (cout_quirk == 1) std::cout.exceptions(std::ios::failbit | std::ios::badbit | std::ios::eofbit);
+        if (cout_quirk == 2) { std::cout.setf(std::ios::fixed, std::ios::floatfield); std::cout.setf(std::ios::showpos); std::cout.precision(3); }
         try
         {
             if (world == 0)
@@ -588,6 +594,8 @@ static void c20_run(rng& g, int shp, int variant, int world, double target, bool
             }
         }
         catch (std::exception const& e) { status = "threw"; }
+        std::cout.exceptions(std::ios::goodbit);
+        std::cout.copyfmt(saved_format);
         std::cout.rdbuf(old);
         long long printed0 = capture.bytes[0], printed_other = 0;
         for (int r = 1; r != 64; ++r) printed_other += capture.bytes[r];
@@ -664,6 +672,14 @@ template <typename T> static void c20_family(rng& g, bool thorough)
     c20_run<plain_k<T>, T>(g, s_inf0, 0, 0, 0.0);
     c20_run<vegas_k<T>, T>(g, s_gap0, 0, 0, 0.0);
     c20_run<plain_k<T>, T>(g, s_gap, 0, 0, 0.0);
+    // the caller's std::cout has exceptions enabled, resp. carries the caller's own number format
+    for (cout_quirk = 1; cout_quirk != 3; ++cout_quirk)
+    {
+        c20_run<plain_k<T>, T>(g, s_ordinary, 0, 0, 0.0);
+        c20_run<vegas_k<T>, T>(g, s_nonfinite, 0, cout_quirk == 1 ? 0 : 2, 0.0);
+        c20_run<mc_k<T>, T>(g, s_ordinary, 9, 0, 0.0);
+    }
+    cout_quirk = 0;
     c20_run<plain_k<T>, T>(g, s_ordinary, 0, 0, 0.0, true);
     c20_run<vegas_k<T>, T>(g, s_ordinary, 0, 2, 0.0, true);
     c20_run<mc_k<T>, T>(g, s_ordinary, 2, 0, 0.0, true);
